@@ -46,6 +46,67 @@ def dl_boundary_scripts(rng, n):
     return out
 
 
+def dl_graph_scripts(rng, n):
+    """Directed family: conjunctions of difference constraints forming random weighted digraphs on 5-7 vertices with
+    8-14 edges, asserted in random order (negative cycles reachable over several paths of different length); half of them
+    in a push/pop history that re-asserts a prefix."""
+    out = []
+    for i in range(n):
+        logic = rng.choice(["QF_IDL", "QF_RDL"])
+        srt = "Int" if logic == "QF_IDL" else "Real"
+        nv = rng.randint(5, 7)
+        vs = ["x%d" % j for j in range(nv)]
+        edges = []
+        for _ in range(rng.randint(8, 14)):
+            a, b = rng.sample(vs, 2)
+            edges.append("(assert (<= (- %s %s) %s))" % (a, b, ("(- %d)" % -w if w < 0 else "%d" % w) if (w := rng.randint(-6, 7)) is not None else ""))
+        # often close a cycle through a chain so that cycles of length >= 4 exist
+        if rng.random() < 0.7:
+            chain = rng.sample(vs, rng.randint(4, min(6, nv)))
+            for a, b in zip(chain, chain[1:] + chain[:1]):
+                w = rng.randint(-3, 2)
+                edges.append("(assert (<= (- %s %s) %s))" % (a, b, "(- %d)" % -w if w < 0 else "%d" % w))
+        rng.shuffle(edges)
+        lines = ["(set-option :produce-models true)", "(set-logic %s)" % logic] + ["(declare-fun %s () %s)" % (v, srt) for v in vs]
+        if rng.random() < 0.5:
+            k = rng.randint(2, len(edges) - 2)
+            lines += edges[:k] + ["(push 1)"] + edges[k:] + ["(check-sat)", "(get-model)", "(pop 1)", "(check-sat)", "(get-model)"]
+        else:
+            lines += edges + ["(check-sat)", "(get-model)"]
+        out.append(("\n".join(lines) + "\n", logic))
+    return out
+
+
+def lattice_scripts(rng, n):
+    """Directed family (QF_LIA / QF_UFLIA): constraints that are feasible over the rationals but not over the integers
+    (parity equations a*x + b*y = c with gcd(a,b) not dividing c, open unit strips 0 < 2x-2y < 2, small lattice-free
+    triangles), posed in the second or later check-sat of a push/pop history whose first checks are satisfiable."""
+    out = []
+    for i in range(n):
+        vs = ["x", "y", "z"]
+        def warm():
+            a, b = rng.sample(vs, 2)
+            return "(assert (<= (+ %s %s) %d))" % (a, b, rng.randint(3, 9))
+        k = rng.random()
+        if k < 0.4:
+            g = rng.choice([2, 3, 4, 6])
+            a, b = g * rng.randint(1, 3), g * rng.randint(1, 3)
+            c = g * rng.randint(-3, 3) + rng.randint(1, g - 1)
+            hard = ["(assert (= (+ (* %d x) (* %d y)) %d))" % (a, b, c)]
+        elif k < 0.7:
+            m = rng.choice([2, 3, 5])
+            hard = ["(assert (< 0 (- (* %d x) (* %d y))))" % (m, m), "(assert (< (- (* %d x) (* %d y)) %d))" % (m, m, m)]
+        else:
+            hard = ["(assert (>= (- (* 5 x) (* 5 y)) 1))", "(assert (<= (- (* 5 x) (* 5 y)) 4))", "(assert (<= 0 x))", "(assert (<= x 10))"]
+        lines = ["(set-option :produce-models true)", "(set-logic QF_LIA)"] + ["(declare-fun %s () Int)" % v for v in vs]
+        lines += ["(push 1)", warm(), warm(), "(check-sat)", "(get-model)", "(pop 1)"]
+        if rng.random() < 0.5:
+            lines += ["(push 1)"]
+        lines += [warm()] + hard + ["(check-sat)", "(get-model)"]
+        out.append(("\n".join(lines) + "\n", "QF_LIA"))
+    return out
+
+
 def cnf_tie(ctx, n):
     """clauses handed to the SAT engine vs the preprocessed formula, judged by the extracted verified truth table"""
     import os, random
@@ -108,8 +169,28 @@ def cnf_tie(ctx, n):
                            "check %d: %s is not valid (%s): %s" % (q[0], kind, v, q[3][:200]), dict(script=text, options=list(opts), formula=q[2][:2000]))
 
 
+def directed(ctx, scripts, tag):
+    import solvercheck as sc
+    jobs = [(t, "default", [], None, 10, True, False, lg) for t, lg in scripts]
+    for (t, lg), (rc, res, out, err, tt, judged) in zip(scripts, answercheck.run_jobs(jobs)):
+        ans = answercheck.answers_of(t, res, out) if rc in (0, 1) else None
+        if not ans:
+            ctx.count("%s:no-answer" % tag)
+            continue
+        for k, a, frames, sig, model in ans:
+            v = judged.get(k)
+            ctx.case(key=(t, k), nontrivial=True, kind="%s:%s:%s:%s" % (tag, lg, a, v[0] if v else "-"), sample=dict(script=t, check_index=k, answer=a))
+            if a == "sat" and v and v[0] == "refuted-oracles":
+                A = sc.active_assertions(frames)
+                ctx.violation("wrong-sat:refuted-oracles:%s:%s" % (answercheck.signature_tail(lg, "default", A, "(push" in t), tag),
+                              "answered sat (own model rejected by the verified evaluator: %s) while z3 and cvc5 say unsat (ORACLE-ONLY), family %s" % (v[1], tag),
+                              dict(script=t, check_index=k))
+
+
 def run(ctx):
     import solvercheck as sc
+    directed(ctx, dl_graph_scripts(ctx.rng, 60 if ctx.quick else 1500), "dl-graph")
+    directed(ctx, lattice_scripts(ctx.rng, 40 if ctx.quick else 1000), "lattice")
     cnf_tie(ctx, 90 if ctx.quick else 2500)
     answercheck.run_corpus(ctx, "C02", judge_sat=True, judge_unsat=False)
     for text, logic, c in dl_boundary_scripts(ctx.rng, 40 if ctx.quick else 600):
